@@ -42,7 +42,14 @@ def buffer_at_exit(p):
     """The buffer value when the refill loop was left (generalised loop-head value, or entry value)."""
     heads = [e for e in p.events if e.kind == 'loop-head' and e.under(READ)]
     if heads:
-        for k, g in heads[-1].data['gen'].items():
+        head = heads[-1]
+        # left through a break after the body extended the buffer: the value stored last before the exit
+        exits = [e for e in p.events if e.kind == 'loop-exit' and e.seq > head.seq and e.under(READ)]
+        if exits and exits[-1].data.get('how') == 'break':
+            sets = [e for e in p.events if e.kind == 'setattr' and e.data['attr'] == 'buffer' and head.seq < e.seq < exits[-1].seq]
+            if sets:
+                return sets[-1].data['value']
+        for k, g in head.data['gen'].items():
             if k[0] in ('attr', 'cattr') and k[1] == 'buffer' and g is not None:
                 return g
     # unrolled run: the buffer after the last refill = value stored by the assignment that follows the last
